@@ -49,7 +49,7 @@ def run(cx: Cx):
     want = {SW + '.__init__': Num(Fraction(0)), ENV + 'DiscreteWorld.__init__': Num(Fraction(1))}
     got = {}
     for s in osites:
-        q = s.fn.qualname
+        q = s.owner_q
         v = s.ev.data.get('value')
         if q in want and s.kind == 'rebind' and v == want[q]:
             got[q] = True
@@ -90,7 +90,7 @@ def run(cx: Cx):
     for ax, _, _ in AXES:
         for s in cx.effects.sites_of((PC, ax)):
             n_sites += 1
-            if s.fn.qualname not in verified:
+            if s.owner_q not in verified:
                 cx.violation('R-BOUND', s.fn.qualname, f"unbounded-position-write-{ax}",
                              f"{s.describe()}: a position field is written outside move/move_to/the constructor; its value "
                              f"is not bounded by the world's extents", where=s.where)
